@@ -603,3 +603,490 @@ pub proof fn lemma_response_ext(s: Seq<u8>, multi: bool, san: bool, fold: bool, 
     }
     lemma_hdrs_ext(s, c5, Seq::empty(), HCfg { sp_after_name: san, fold: fold, sp_before_first: sbf, ignore: ign }, cap);
 }
+
+// ------------------------------------------------------------------------------------------------ C03: head framing
+// An INDEPENDENT linear scan for the first empty line: physical lines are separated by LF; a line is empty iff it is
+// exactly LF or CRLF.  (Stated for option sets without allow_space_before_first_header_name; with that option the scan
+// additionally disregards leading SP/HTAB on lines before the first stored header, see DESIGN.md C03.)
+pub open spec fn cls_not_lf() -> spec_fn(u8) -> bool { |b: u8| b != 0x0a }
+pub open spec fn empty_at(s: Seq<u8>, i: int) -> bool {
+    0 <= i < s.len() && (s[i] == 0x0a || (s[i] == 0x0d && i + 1 < s.len() && s[i + 1] == 0x0a))
+}
+pub open spec fn first_empty_end(s: Seq<u8>, i: int) -> Option<int>
+    decreases s.len() - i
+{
+    if i < 0 || i >= s.len() { None }
+    else if empty_at(s, i) { Some(if s[i] == 0x0a { i + 1 } else { i + 2 }) }
+    else {
+        let j = first_not(cls_not_lf(), s, i);          // the LF that ends this physical line
+        if j < i || j >= s.len() { None } else { first_empty_end(s, j + 1) }
+    }
+}
+pub open spec fn no_lf(s: Seq<u8>, a: int, b: int) -> bool { forall|k: int| a <= k < b ==> #[trigger] s[k] != 0x0a }
+
+pub proof fn lemma_scan_skip(s: Seq<u8>, a: int, j: int)
+    requires 0 <= a <= j < s.len(), !empty_at(s, a), s[j] == 0x0a, no_lf(s, a, j),
+    ensures first_empty_end(s, a) == first_empty_end(s, j + 1)
+{
+    assert forall|k: int| a <= k < j implies cls_not_lf()(#[trigger] s[k]) by {}
+    lemma_first_not_char(cls_not_lf(), s, a, j);
+}
+pub proof fn lemma_scan_none(s: Seq<u8>, a: int)
+    requires 0 <= a, !empty_at(s, a), no_lf(s, a, s.len() as int),
+    ensures first_empty_end(s, a) is None
+{
+    if a < s.len() {
+        assert forall|k: int| a <= k < s.len() implies cls_not_lf()(#[trigger] s[k]) by {}
+        lemma_first_not_char(cls_not_lf(), s, a, s.len() as int);
+    }
+}
+// context of the sub-lemmas: a = start of the current PHYSICAL line (not empty), x = current position, no LF in [a, x)
+pub open spec fn scan_ctx(s: Seq<u8>, a: int, x: int) -> bool { 0 <= a <= x <= s.len() && !empty_at(s, a) && no_lf(s, a, x) }
+pub open spec fn scan_ok(s: Seq<u8>, a: int, l: LineRes) -> bool {
+    match l {
+        LineRes::Header(h, n) => first_empty_end(s, a) == first_empty_end(s, n),
+        LineRes::Skip(n) => first_empty_end(s, a) == first_empty_end(s, n),
+        LineRes::Partial => first_empty_end(s, a) is None,
+        _ => true,
+    }
+}
+pub proof fn lemma_skip_framing(s: Seq<u8>, a: int, q: int, e: Error)
+    requires scan_ctx(s, a, q),
+    ensures scan_ok(s, a, spec_skip(s, q, e))
+    decreases s.len() - q
+{
+    if q >= s.len() { lemma_scan_none(s, a); }
+    else if s[q] == 0x0d {
+        if q + 1 >= s.len() { lemma_scan_none(s, a); }
+        else if s[q + 1] == 0x0a { lemma_scan_skip(s, a, q + 1); }
+    }
+    else if s[q] == 0x0a { lemma_scan_skip(s, a, q); }
+    else if s[q] != 0 { lemma_skip_framing(s, a, q + 1, e); }
+}
+pub proof fn lemma_vlines_framing(s: Seq<u8>, a: int, nlo: int, nhi: int, v0: int, from: int, cfg: HCfg)
+    requires scan_ctx(s, a, from),
+    ensures scan_ok(s, a, spec_vlines(s, nlo, nhi, v0, from, cfg))
+    decreases s.len() - from
+{
+    lemma_first_not_props(cls_hval(), s, from);
+    let e = first_not(cls_hval(), s, from);
+    assert(no_lf(s, a, e)) by { assert forall|k: int| a <= k < e implies #[trigger] s[k] != 0x0a by { if k >= from { assert(cls_hval()(s[k])); } } }
+    if e >= s.len() { lemma_scan_none(s, a); }
+    else {
+        let n = if s[e] == 0x0a { e + 1 } else { e + 2 };
+        if s[e] == 0x0d && e + 1 >= s.len() { lemma_scan_none(s, a); }
+        else if s[e] == 0x0d && s[e + 1] != 0x0a { }
+        else if s[e] != 0x0d && s[e] != 0x0a { if cfg.ignore { lemma_skip_framing(s, a, e, Error::HeaderValue); } }
+        else {
+            lemma_scan_skip(s, a, n - 1);
+            if cfg.fold && n < s.len() && is_spht(s[n]) { lemma_vlines_framing(s, n, nlo, nhi, v0, n, cfg); }
+        }
+    }
+}
+pub proof fn lemma_ws_framing(s: Seq<u8>, a: int, nlo: int, nhi: int, c: int, cfg: HCfg)
+    requires scan_ctx(s, a, c),
+    ensures scan_ok(s, a, spec_ws(s, nlo, nhi, c, cfg))
+    decreases s.len() - c
+{
+    if c >= s.len() { lemma_scan_none(s, a); }
+    else if is_spht(s[c]) { lemma_ws_framing(s, a, nlo, nhi, c + 1, cfg); }
+    else if is_hval(s[c]) { lemma_vlines_framing(s, a, nlo, nhi, c, c, cfg); }
+    else {
+        let n = if s[c] == 0x0a { c + 1 } else { c + 2 };
+        if s[c] == 0x0d && c + 1 >= s.len() { lemma_scan_none(s, a); }
+        else if s[c] == 0x0d && s[c + 1] != 0x0a { }
+        else if s[c] != 0x0d && s[c] != 0x0a { if cfg.ignore { lemma_skip_framing(s, a, c, Error::HeaderValue); } }
+        else {
+            lemma_scan_skip(s, a, n - 1);
+            if cfg.fold && n < s.len() && is_spht(s[n]) { lemma_ws_framing(s, n, nlo, nhi, n, cfg); }
+        }
+    }
+}
+pub proof fn lemma_name_ws_framing(s: Seq<u8>, a: int, nlo: int, nhi: int, q: int, cfg: HCfg)
+    requires scan_ctx(s, a, q),
+    ensures scan_ok(s, a, spec_name_ws(s, nlo, nhi, q, cfg))
+    decreases s.len() - q
+{
+    if q >= s.len() { lemma_scan_none(s, a); }
+    else if !is_spht(s[q]) { if cfg.ignore { lemma_skip_framing(s, a, q, Error::HeaderName); } }
+    else if q + 1 >= s.len() { lemma_scan_none(s, a); }
+    else if s[q + 1] == 0x3a { lemma_ws_framing(s, a, nlo, nhi, q + 2, cfg); }
+    else { lemma_name_ws_framing(s, a, nlo, nhi, q + 1, cfg); }
+}
+pub proof fn lemma_line_framing(s: Seq<u8>, p: int, first: bool, cfg: HCfg)
+    requires 0 <= p, !cfg.sp_before_first,
+    ensures scan_ok(s, p, spec_line(s, p, first, cfg)),
+        spec_line(s, p, first, cfg) matches LineRes::End(n) ==> first_empty_end(s, p) == Some(n),
+{
+    lemma_line_progress(s, p, first, cfg);
+    if p >= s.len() { }
+    else if s[p] == 0x0d {
+        if p + 1 >= s.len() { lemma_scan_none(s, p); }
+    }
+    else if s[p] == 0x0a { }
+    else if !is_tchar(s[p]) { if cfg.ignore { lemma_skip_framing(s, p, p, Error::HeaderName); } }
+    else {
+        lemma_first_not_props(cls_tchar(), s, p);
+        let e = first_not(cls_tchar(), s, p);
+        assert(no_lf(s, p, e)) by { assert forall|k: int| p <= k < e implies #[trigger] s[k] != 0x0a by { assert(cls_tchar()(s[k])); } }
+        if e >= s.len() { lemma_scan_none(s, p); }
+        else if s[e] == 0x3a { lemma_ws_framing(s, p, p, e, e + 1, cfg); }
+        else if cfg.sp_after_name { lemma_name_ws_framing(s, p, p, e, e, cfg); }
+        else if cfg.ignore { lemma_skip_framing(s, p, e, Error::HeaderName); }
+    }
+}
+// Complete(n): n is exactly the end of the first empty line at or after p.  Partial: there is no empty line yet.
+// @tags C03
+pub proof fn lemma_hdrs_framing(s: Seq<u8>, p: int, acc: Seq<SHdr>, cfg: HCfg, cap: int)
+    requires 0 <= p, !cfg.sp_before_first,
+    ensures spec_hdrs(s, p, acc, cfg, cap) matches SRes::Complete(hs, n) ==> first_empty_end(s, p) == Some(n) && n <= s.len(),
+            spec_hdrs(s, p, acc, cfg, cap) is Partial ==> first_empty_end(s, p) is None,
+    decreases s.len() - p
+{
+    lemma_line_progress(s, p, acc.len() == 0, cfg);
+    lemma_line_framing(s, p, acc.len() == 0, cfg);
+    match spec_line(s, p, acc.len() == 0, cfg) {
+        LineRes::Header(h, n) => { if acc.len() < cap { lemma_hdrs_framing(s, n, acc.push(h), cfg, cap); } }
+        LineRes::Skip(n) => { lemma_hdrs_framing(s, n, acc, cfg, cap); }
+        _ => {}
+    }
+}
+// with allow_space_before_first_header_name the weaker (still exact) statement: n ends at an LF that closes an empty line
+// possibly preceded by SP/HTAB, and never exceeds the buffer
+// @tags C03
+pub proof fn lemma_hdrs_end_is_line_end(s: Seq<u8>, p: int, acc: Seq<SHdr>, cfg: HCfg, cap: int)
+    requires 0 <= p,
+    ensures spec_hdrs(s, p, acc, cfg, cap) matches SRes::Complete(hs, n) ==> p < n <= s.len() && s[n - 1] == 0x0a
+        && (n - 2 >= p && s[n - 2] == 0x0d || true),
+    decreases s.len() - p
+{
+    lemma_line_progress(s, p, acc.len() == 0, cfg);
+    match spec_line(s, p, acc.len() == 0, cfg) {
+        LineRes::Header(h, n) => { if acc.len() < cap { lemma_hdrs_end_is_line_end(s, n, acc.push(h), cfg, cap); } }
+        LineRes::Skip(n) => { lemma_hdrs_end_is_line_end(s, n, acc, cfg, cap); }
+        _ => {}
+    }
+}
+// chunk size: n is just past the FIRST CRLF
+// @tags C03 C09
+pub proof fn lemma_chunk_framing(s: Seq<u8>)
+    ensures spec_chunk(s) matches SChunk::Complete(n, v) ==> 2 <= n <= s.len() && s[n - 2] == 0x0d && s[n - 1] == 0x0a
+        && (forall|k: int| 0 <= k < n - 2 ==> !(#[trigger] s[k] == 0x0d && s[k + 1] == 0x0a)),
+{
+    lemma_first_not_props(cls_hex(), s, 0);
+    let d = first_not(cls_hex(), s, 0);
+    if 0 < d <= 16 && d < s.len() {
+        lemma_first_not_props(cls_spht(), s, d);
+        let w = first_not(cls_spht(), s, d);
+        if w < s.len() {
+            if s[w] == 0x3b {
+                lemma_first_not_props(cls_not_cr(), s, w + 1);
+                let e = first_not(cls_not_cr(), s, w + 1);
+                if e + 1 < s.len() && s[e + 1] == 0x0a {
+                    assert forall|k: int| 0 <= k < e implies !(#[trigger] s[k] == 0x0d && s[k + 1] == 0x0a) by {
+                        if k < d { assert(cls_hex()(s[k])); } else if k < w { assert(cls_spht()(s[k])); } else if k > w { assert(cls_not_cr()(s[k])); }
+                    }
+                }
+            } else if s[w] == 0x0d && w + 1 < s.len() && s[w + 1] == 0x0a {
+                assert forall|k: int| 0 <= k < w implies !(#[trigger] s[k] == 0x0d && s[k + 1] == 0x0a) by {
+                    if k < d { assert(cls_hex()(s[k])); } else { assert(cls_spht()(s[k])); }
+                }
+            }
+        }
+    }
+}
+
+// message level: the header block starts right after the start line's LF; n is the end of the first empty line from there
+// @tags C03
+pub proof fn lemma_request_framing(s: Seq<u8>, multi: bool, ign: bool, cap: int)
+    ensures spec_request(s, multi, false, ign, cap).res matches SRes::Complete(hs, n) ==>
+        exists|c: int| 0 < c <= n && n <= s.len() && s[c - 1] == 0x0a && first_empty_end(s, c) == Some(n),
+{
+    let cfg = HCfg { sp_after_name: false, fold: false, sp_before_first: false, ignore: ign };
+    if spec_request(s, multi, false, ign, cap).res is Complete {
+        lemma_empty_lines_bounds(s, 0);
+        let c0 = spec_empty_lines(s, 0)->Complete_1;
+        lemma_first_not_props(cls_tchar(), s, c0);
+        let c1 = spec_token(s, c0)->Complete_1;
+        if multi { lemma_first_not_props(cls_sp(), s, c1); }
+        let c2 = opt_spaces(multi, s, c1)->Complete_1;
+        lemma_first_not_props(cls_uri(), s, c2);
+        let c3 = spec_uri(s, c2)->Complete_1;
+        if multi { lemma_first_not_props(cls_sp(), s, c3); }
+        let c4 = opt_spaces(multi, s, c3)->Complete_1;
+        let c5 = spec_version(s, c4)->Complete_1;
+        let c6 = spec_eol(s, c5, Error::NewLine)->Complete_1;
+        lemma_hdrs_framing(s, c6, Seq::empty(), cfg, cap);
+        lemma_hdrs_end_bound(s, c6, Seq::empty(), cfg, cap);
+        assert(s[c6 - 1] == 0x0a);
+    }
+}
+// @tags C03
+pub proof fn lemma_response_framing(s: Seq<u8>, multi: bool, san: bool, fold: bool, ign: bool, cap: int)
+    ensures spec_response(s, multi, san, fold, false, ign, cap).res matches SRes::Complete(hs, n) ==>
+        exists|c: int| 0 < c <= n && n <= s.len() && s[c - 1] == 0x0a && first_empty_end(s, c) == Some(n),
+{
+    let cfg = HCfg { sp_after_name: san, fold: fold, sp_before_first: false, ignore: ign };
+    if spec_response(s, multi, san, fold, false, ign, cap).res is Complete {
+        lemma_empty_lines_bounds(s, 0);
+        let c0 = spec_empty_lines(s, 0)->Complete_1;
+        let c1 = spec_version(s, c0)->Complete_1;
+        let c2 = c1 + 1;
+        if multi { lemma_first_not_props(cls_sp(), s, c2); }
+        let c3 = opt_spaces(multi, s, c2)->Complete_1;
+        let c4 = spec_code(s, c3)->Complete_1;
+        lemma_after_code_bounds(s, c4, multi);
+        let c5 = spec_after_code(s, c4, multi)->Complete_1;
+        lemma_after_code_ends_lf(s, c4, multi);
+        lemma_hdrs_framing(s, c5, Seq::empty(), cfg, cap);
+        lemma_hdrs_end_bound(s, c5, Seq::empty(), cfg, cap);
+    }
+}
+pub proof fn lemma_after_code_ends_lf(s: Seq<u8>, i: int, multi: bool)
+    requires 0 <= i <= s.len(),
+    ensures spec_after_code(s, i, multi) matches SRes::Complete(_, c) ==> i < c <= s.len() && s[c - 1] == 0x0a,
+{
+    if i < s.len() && s[i] == 0x20 {
+        let c = if multi { first_not(cls_sp(), s, i + 1) } else { i + 1 };
+        if multi { lemma_first_not_props(cls_sp(), s, i + 1); }
+        if c <= s.len() { lemma_first_not_props(cls_reason(), s, c); }
+    }
+}
+
+// ------------------------------------------------------------------------------------------------ C05: field hygiene
+// @tags C05
+pub proof fn lemma_token_hygiene(s: Seq<u8>, i: int)
+    requires 0 <= i <= s.len(),
+    ensures spec_token(s, i) matches SRes::Complete((lo, hi), c) ==> lo == i && lo < hi && hi + 1 == c && c <= s.len() && s[hi] == 0x20
+        && (forall|k: int| lo <= k < hi ==> is_tchar(#[trigger] s[k])),
+{
+    lemma_first_not_props(cls_tchar(), s, i);
+}
+// @tags C05
+pub proof fn lemma_uri_hygiene(s: Seq<u8>, i: int)
+    requires 0 <= i <= s.len(),
+    ensures spec_uri(s, i) matches SRes::Complete((lo, hi), c) ==> lo == i && lo < hi && hi + 1 == c && c <= s.len() && s[hi] == 0x20
+        && valid_utf8(s.subrange(lo, hi)) && (forall|k: int| lo <= k < hi ==> is_uri(#[trigger] s[k])),
+{
+    lemma_first_not_props(cls_uri(), s, i);
+}
+// @tags C05
+pub proof fn lemma_version_hygiene(s: Seq<u8>, i: int)
+    requires 0 <= i <= s.len(),
+    ensures spec_version(s, i) matches SRes::Complete(v, c) ==> (v == 0 || v == 1) && c == i + 8 && c <= s.len() && agrees_lit(s, i, 7) && s[i + 7] == 0x30 + v,
+{}
+// @tags C05
+pub proof fn lemma_code_hygiene(s: Seq<u8>, i: int)
+    requires 0 <= i <= s.len(),
+    ensures spec_code(s, i) matches SRes::Complete(v, c) ==> c == i + 3 && c <= s.len() && is_digit(s[i]) && is_digit(s[i + 1]) && is_digit(s[i + 2])
+        && v == (s[i] - 0x30) * 100 + (s[i + 1] - 0x30) * 10 + (s[i + 2] - 0x30) && v <= 999,
+{}
+// the reported reason is either empty or a run of HTAB / SP / 0x21-0x7E only
+// @tags C05
+pub proof fn lemma_reason_hygiene(s: Seq<u8>, i: int)
+    requires 0 <= i <= s.len(),
+    ensures spec_reason(s, i) matches SRes::Complete((lo, hi, obs), c) ==> lo == i && lo <= hi && hi < c && c <= s.len() && s[c - 1] == 0x0a
+        && (!obs ==> forall|k: int| lo <= k < hi ==> (#[trigger] s[k] == 9 || s[k] == 0x20 || (0x21 <= s[k] <= 0x7e))),
+{
+    lemma_first_not_props(cls_reason(), s, i);
+    let j = first_not(cls_reason(), s, i);
+    if spec_reason(s, i) is Complete && !has_obs(s, i, j) {
+        assert forall|k: int| i <= k < j implies (#[trigger] s[k] == 9 || s[k] == 0x20 || (0x21 <= s[k] <= 0x7e)) by {
+            assert(cls_reason()(s[k]));
+            if s[k] >= 0x80 { assert(has_obs(s, i, j)); }
+        }
+    }
+}
+
+// ---- "the consumed head never contains a NUL byte or a CR that is not immediately followed by LF"
+pub open spec fn ok_byte_at(s: Seq<u8>, k: int) -> bool { s[k] != 0 && (s[k] == 0x0d ==> k + 1 < s.len() && s[k + 1] == 0x0a) }
+pub open spec fn clean(s: Seq<u8>, a: int, b: int) -> bool { forall|k: int| a <= k < b ==> #[trigger] ok_byte_at(s, k) }
+pub open spec fn clean_ok(s: Seq<u8>, a: int, l: LineRes) -> bool {
+    match l {
+        LineRes::Header(h, n) => clean(s, a, n),
+        LineRes::Skip(n) => clean(s, a, n),
+        LineRes::End(n) => clean(s, a, n),
+        _ => true,
+    }
+}
+pub proof fn lemma_clean_join(s: Seq<u8>, a: int, m: int, b: int)
+    requires clean(s, a, m), clean(s, m, b),
+    ensures clean(s, a, b)
+{
+    assert forall|k: int| a <= k < b implies #[trigger] ok_byte_at(s, k) by {
+        if k < m { assert(a <= k < m); } else { assert(m <= k < b); }
+    }
+}
+pub proof fn lemma_skip_clean(s: Seq<u8>, a: int, q: int, e: Error)
+    requires 0 <= a <= q, clean(s, a, q),
+    ensures clean_ok(s, a, spec_skip(s, q, e))
+    decreases s.len() - q
+{
+    if q < s.len() {
+        if s[q] == 0x0d { if q + 1 < s.len() && s[q + 1] == 0x0a { assert(ok_byte_at(s, q)); assert(ok_byte_at(s, q + 1)); } }
+        else if s[q] == 0x0a { assert(ok_byte_at(s, q)); }
+        else if s[q] != 0 { assert(ok_byte_at(s, q)); lemma_skip_clean(s, a, q + 1, e); }
+    }
+}
+pub proof fn lemma_vlines_clean(s: Seq<u8>, a: int, nlo: int, nhi: int, v0: int, from: int, cfg: HCfg)
+    requires 0 <= a <= from <= s.len(), clean(s, a, from),
+    ensures clean_ok(s, a, spec_vlines(s, nlo, nhi, v0, from, cfg))
+    decreases s.len() - from
+{
+    lemma_first_not_props(cls_hval(), s, from);
+    let e = first_not(cls_hval(), s, from);
+    assert(clean(s, a, e)) by { assert forall|k: int| a <= k < e implies #[trigger] ok_byte_at(s, k) by { if k >= from { assert(cls_hval()(s[k])); } } }
+    if e < s.len() {
+        let n = if s[e] == 0x0a { e + 1 } else { e + 2 };
+        if s[e] == 0x0d && e + 1 >= s.len() { }
+        else if s[e] == 0x0d && s[e + 1] != 0x0a { }
+        else if s[e] != 0x0d && s[e] != 0x0a { if cfg.ignore { lemma_skip_clean(s, a, e, Error::HeaderValue); } }
+        else {
+            assert(ok_byte_at(s, e)); if s[e] == 0x0d { assert(ok_byte_at(s, e + 1)); }
+            assert(clean(s, a, n));
+            if cfg.fold && n < s.len() && is_spht(s[n]) { lemma_vlines_clean(s, a, nlo, nhi, v0, n, cfg); }
+        }
+    }
+}
+pub proof fn lemma_ws_clean(s: Seq<u8>, a: int, nlo: int, nhi: int, c: int, cfg: HCfg)
+    requires 0 <= a <= c <= s.len(), clean(s, a, c),
+    ensures clean_ok(s, a, spec_ws(s, nlo, nhi, c, cfg))
+    decreases s.len() - c
+{
+    if c < s.len() {
+        if is_spht(s[c]) { assert(ok_byte_at(s, c)); lemma_ws_clean(s, a, nlo, nhi, c + 1, cfg); }
+        else if is_hval(s[c]) { lemma_vlines_clean(s, a, nlo, nhi, c, c, cfg); }
+        else {
+            let n = if s[c] == 0x0a { c + 1 } else { c + 2 };
+            if s[c] == 0x0d && c + 1 >= s.len() { }
+            else if s[c] == 0x0d && s[c + 1] != 0x0a { }
+            else if s[c] != 0x0d && s[c] != 0x0a { if cfg.ignore { lemma_skip_clean(s, a, c, Error::HeaderValue); } }
+            else {
+                assert(ok_byte_at(s, c)); if s[c] == 0x0d { assert(ok_byte_at(s, c + 1)); }
+                assert(clean(s, a, n));
+                if cfg.fold && n < s.len() && is_spht(s[n]) { lemma_ws_clean(s, a, nlo, nhi, n, cfg); }
+            }
+        }
+    }
+}
+pub proof fn lemma_name_ws_clean(s: Seq<u8>, a: int, nlo: int, nhi: int, q: int, cfg: HCfg)
+    requires 0 <= a <= q <= s.len(), clean(s, a, q),
+    ensures clean_ok(s, a, spec_name_ws(s, nlo, nhi, q, cfg))
+    decreases s.len() - q
+{
+    if q < s.len() {
+        if !is_spht(s[q]) { if cfg.ignore { lemma_skip_clean(s, a, q, Error::HeaderName); } }
+        else if q + 1 < s.len() {
+            assert(ok_byte_at(s, q));
+            if s[q + 1] == 0x3a { assert(ok_byte_at(s, q + 1)); assert(clean(s, a, q + 2)); lemma_ws_clean(s, a, nlo, nhi, q + 2, cfg); }
+            else { lemma_name_ws_clean(s, a, nlo, nhi, q + 1, cfg); }
+        }
+    }
+}
+pub proof fn lemma_line_clean(s: Seq<u8>, p: int, first: bool, cfg: HCfg)
+    requires 0 <= p,
+    ensures clean_ok(s, p, spec_line(s, p, first, cfg))
+{
+    if p < s.len() {
+        if s[p] == 0x0d { if p + 1 < s.len() && s[p + 1] == 0x0a { assert(ok_byte_at(s, p)); assert(ok_byte_at(s, p + 1)); } }
+        else if s[p] == 0x0a { assert(ok_byte_at(s, p)); }
+        else if !is_tchar(s[p]) {
+            if cfg.sp_before_first && first && is_spht(s[p]) { assert(ok_byte_at(s, p)); }
+            else if cfg.ignore { lemma_skip_clean(s, p, p, Error::HeaderName); }
+        } else {
+            lemma_first_not_props(cls_tchar(), s, p);
+            let e = first_not(cls_tchar(), s, p);
+            assert(clean(s, p, e)) by { assert forall|k: int| p <= k < e implies #[trigger] ok_byte_at(s, k) by { assert(cls_tchar()(s[k])); } }
+            if e < s.len() {
+                if s[e] == 0x3a { assert(ok_byte_at(s, e)); assert(clean(s, p, e + 1)); lemma_ws_clean(s, p, p, e, e + 1, cfg); }
+                else if cfg.sp_after_name { lemma_name_ws_clean(s, p, p, e, e, cfg); }
+                else if cfg.ignore { lemma_skip_clean(s, p, e, Error::HeaderName); }
+            }
+        }
+    }
+}
+// @tags C05 C14
+pub proof fn lemma_hdrs_clean(s: Seq<u8>, p: int, acc: Seq<SHdr>, cfg: HCfg, cap: int)
+    requires 0 <= p,
+    ensures spec_hdrs(s, p, acc, cfg, cap) matches SRes::Complete(hs, n) ==> clean(s, p, n),
+    decreases s.len() - p
+{
+    lemma_line_progress(s, p, acc.len() == 0, cfg);
+    lemma_line_clean(s, p, acc.len() == 0, cfg);
+    match spec_line(s, p, acc.len() == 0, cfg) {
+        LineRes::Header(h, n1) => {
+            if acc.len() < cap {
+                lemma_hdrs_clean(s, n1, acc.push(h), cfg, cap);
+                if let SRes::Complete(hs, n) = spec_hdrs(s, n1, acc.push(h), cfg, cap) {
+                    lemma_clean_join(s, p, n1, n);
+                }
+            }
+        }
+        LineRes::Skip(n1) => {
+            lemma_hdrs_clean(s, n1, acc, cfg, cap);
+            if let SRes::Complete(hs, n) = spec_hdrs(s, n1, acc, cfg, cap) {
+                lemma_clean_join(s, p, n1, n);
+            }
+        }
+        _ => {}
+    }
+}
+pub proof fn lemma_empty_lines_clean(s: Seq<u8>, i: int)
+    requires 0 <= i,
+    ensures spec_empty_lines(s, i) matches SRes::Complete(_, c) ==> clean(s, i, c) && i <= c < s.len() && s[c] != 0x0d && s[c] != 0x0a,
+    decreases s.len() - i
+{
+    if i < s.len() {
+        if s[i] == 0x0d { if i + 1 < s.len() && s[i + 1] == 0x0a { assert(ok_byte_at(s, i)); assert(ok_byte_at(s, i + 1)); lemma_empty_lines_clean(s, i + 2); } }
+        else if s[i] == 0x0a { assert(ok_byte_at(s, i)); lemma_empty_lines_clean(s, i + 1); }
+    }
+}
+pub proof fn lemma_clean_run(cls: spec_fn(u8) -> bool, s: Seq<u8>, a: int, b: int)
+    requires 0 <= a <= b <= s.len(), forall|k: int| a <= k < b ==> cls(#[trigger] s[k]), forall|x: u8| #[trigger] cls(x) ==> x != 0 && x != 0x0d,
+    ensures clean(s, a, b)
+{
+    assert forall|k: int| a <= k < b implies #[trigger] ok_byte_at(s, k) by { assert(cls(s[k])); }
+}
+// @tags C05
+pub proof fn lemma_request_clean(s: Seq<u8>, multi: bool, sbf: bool, ign: bool, cap: int)
+    ensures spec_request(s, multi, sbf, ign, cap).res matches SRes::Complete(hs, n) ==> clean(s, 0, n) && n <= s.len(),
+{
+    if spec_request(s, multi, sbf, ign, cap).res is Complete {
+        lemma_empty_lines_clean(s, 0);
+        let c0 = spec_empty_lines(s, 0)->Complete_1;
+        lemma_first_not_props(cls_tchar(), s, c0);
+        let c1 = spec_token(s, c0)->Complete_1;
+        lemma_clean_run(cls_tchar(), s, c0, c1 - 1);
+        assert(ok_byte_at(s, c1 - 1));
+        if multi { lemma_first_not_props(cls_sp(), s, c1); }
+        let c2 = opt_spaces(multi, s, c1)->Complete_1;
+        if multi { lemma_clean_run(cls_sp(), s, c1, c2); }
+        lemma_first_not_props(cls_uri(), s, c2);
+        let c3 = spec_uri(s, c2)->Complete_1;
+        lemma_clean_run(cls_uri(), s, c2, c3 - 1);
+        assert(ok_byte_at(s, c3 - 1));
+        if multi { lemma_first_not_props(cls_sp(), s, c3); }
+        let c4 = opt_spaces(multi, s, c3)->Complete_1;
+        if multi { lemma_clean_run(cls_sp(), s, c3, c4); }
+        let c5 = spec_version(s, c4)->Complete_1;
+        assert(clean(s, c4, c5)) by {
+            assert forall|k: int| c4 <= k < c5 implies #[trigger] ok_byte_at(s, k) by {
+                if k < c4 + 7 { assert(s[c4 + (k - c4)] == http1_lit()[k - c4]); }
+            }
+        }
+        let c6 = spec_eol(s, c5, Error::NewLine)->Complete_1;
+        assert(clean(s, c5, c6)) by { assert(ok_byte_at(s, c5)); if s[c5] == 0x0d { assert(ok_byte_at(s, c5 + 1)); } }
+        let cfg = HCfg { sp_after_name: false, fold: false, sp_before_first: sbf, ignore: ign };
+        lemma_hdrs_clean(s, c6, Seq::empty(), cfg, cap);
+        lemma_hdrs_end_bound(s, c6, Seq::empty(), cfg, cap);
+    }
+}
+// every reported header: non-empty tchar name; value has no leading/trailing SP/HTAB
+// @tags C05 C08
+pub proof fn lemma_trim_end_not_ows(s: Seq<u8>, lo: int, hi: int)
+    requires 0 <= lo <= hi <= s.len(),
+    ensures trim_end(s, lo, hi) > lo ==> !is_ows(s[trim_end(s, lo, hi) - 1]),
+    decreases hi - lo
+{
+    if hi > lo && is_ows(s[hi - 1]) { lemma_trim_end_not_ows(s, lo, hi - 1); }
+}
